@@ -364,6 +364,13 @@ class _ExprInline(ast.NodeTransformer):
                 hf = self.caller.nested.get(node_.id) or self.mi.funcs.get(node_.id)
                 if hf is not None and hf.qname in self.cands and hf is not self.caller and hf.cls is None and not hf.node.args.defaults and not getattr(self.cands[hf.qname], "_nested_only", False):
                     lam = ast.Lambda(args=ast.arguments(posonlyargs=[], args=[ast.arg(arg=a_.arg) for a_ in hf.node.args.args], kwonlyargs=[], kw_defaults=[], defaults=[]), body=ast.parse(ast.unparse(self.cands[hf.qname]), mode="eval").body)
+                    if len(lam.args.args) == 1 and lam.args.args[0].arg != "e" and not any(isinstance(x, ast.Name) and x.id == "e" for x in ast.walk(lam.body)):
+                        # the key lambdas of this code base name their parameter `e`: same function, familiar text
+                        old_ = lam.args.args[0].arg
+                        lam.args.args[0].arg = "e"
+                        for x in ast.walk(lam.body):
+                            if isinstance(x, ast.Name) and x.id == old_:
+                                x.id = "e"
                     ast.copy_location(lam, node_)
                     for x in ast.walk(lam):
                         if not hasattr(x, "lineno"):
